@@ -59,6 +59,11 @@ func vhDefElidedActions() Rules {
 	}
 }
 
+// repetition of a body that can match the empty string inside a rule that cannot
+func vhDefNullableStar() Rules {
+	return Rules{"Root": {{"X", `(a?)*b`, nil}, {"Y", `(?:a*)+c`, nil}, {"Z", `(a|)+d`, nil}, {"A", `a`, nil}}}
+}
+
 func vhDefString() Rules { // README-style interpolated string
 	return Rules{
 		"Root":   {{"String", `"`, Push("String")}, {"Ident", `[a-z]+`, nil}},
